@@ -217,14 +217,16 @@ def get_operation_count(layer, input_shape):
     ishape = np.array([i for i in input_shape if i is not None])
     assert sum(ishape > 1) <= 1, ("Input Tensor shape in %s has "
                                   "multiple >1 size dims") % layer.name
-    size_i = np.max(ishape)
+    # the kernel contracts the last axis, whichever dimension is the large one
+    size_i = ishape[-1]
 
     oshape = np.array([i for i in output_shape if i is not None])
     assert sum(oshape > 1) <= 1, ("Output Tensor shape in %s has " +
                                   "multiple >1 size dims") % layer.name
-    size_o = np.max(oshape)
+    size_o = oshape[-1]
 
-    operation_count = (size_i * size_o)
+    # ... and is applied once per position of the remaining axes
+    operation_count = int(np.prod(oshape[:-1])) * size_i * size_o
 
   else:
     print("operation count for {} is defaulted to 0".format(
